@@ -46,3 +46,62 @@ Definition run_parse (T : tables) (files : list (str * str)) (lang : str)
   do r <- parse T rd fuel st latex define extr;
   Ok {| po_toks := snd r; po_unknowns := unknowns (fst r);
         po_diags := rev (diags (fst r)) |}.
+
+(* ---- the wrapper tex2txt(): tex2txt.py 31-77 ---- *)
+From YV Require Import Replace Ml.
+
+Inductive t2t_result :=
+  | TSingle (txt : str) (positions : list Z)
+  | TMulti (parts : list (str * list (str * list Z))).
+
+Record t2t_out := { to_result : t2t_result; to_unknowns : list str;
+                    to_diags : list diag }.
+
+Definition run_tex2txt (T : tables) (is_word : char -> bool)
+                       (files : list (str * str)) (lang : str)
+                       (multi simple : bool) (mods : list (bool * str))
+                       (define latex : str) (extr : list str)
+                       (repl : option (list str)) (unkn : bool) (thresh : nat)
+                       (fuel : nat) : result t2t_out :=
+  let rd := fun f => assoc f files in
+  let st0 := init_state T lang multi simple true in
+  do st <- init_parser T rd fuel st0 (t_builtin T) mods;
+  do r <- parse T rd fuel st latex define extr;
+  let '(st, toks) := r in
+  let fin x := Ok {| to_result := x; to_unknowns := unknowns st;
+                     to_diags := rev (diags st) |} in
+  let repl_f t p :=
+    match repl with
+    | Some lines => replace_phrases (t_is_space T) (t_is_alpha T) is_word t p lines
+    | None => Ok (t, p)
+    end in
+  if negb multi then
+    let '(t, p) := get_txt_pos toks in
+    do tp <- repl_f t p;
+    let '(t, p) := tp in
+    let '(t, p) :=
+      if unkn then
+        let u := join [c_nl] (unknowns st) ++ [c_nl] in (u, repeat 0 (length u))
+      else (t, p) in
+    fin (TSingle t (map (fun n => n + 1) p))
+  else
+    do ml <- get_txt_pos_ml (t_is_space T) (check_parser_lang T) thresh toks lang
+                            (rot_change st);
+    do ml <- (fix go (l : list (str * list (str * list Z)))
+              : result (list (str * list (str * list Z))) :=
+              match l with
+              | [] => Ok []
+              | (lg, parts) :: l' =>
+                  do parts' <-
+                    (if str_eqb lg lang then
+                       (fix gp (ps : list (str * list Z)) : result (list (str * list Z)) :=
+                          match ps with
+                          | [] => Ok []
+                          | (t, p) :: ps' => do tp <- repl_f t p; do r <- gp ps'; Ok (tp :: r)
+                          end) parts
+                     else Ok parts);
+                  do r <- go l';
+                  Ok ((lg, parts') :: r)
+              end) ml;
+    fin (TMulti (map (fun e => (fst e, map (fun tp => (fst tp, map (fun n => n + 1) (snd tp)))
+                                         (snd e))) ml)).
